@@ -3,10 +3,12 @@ import json, os
 from .. import core
 from ..core import Run, ToolError
 
-SIM = {"quick": dict(num=250, workers=4, maxnodes=30, minnodes=12), "thorough": dict(num=2500, workers=16, maxnodes=45, minnodes=16)}
+SIM = {  # maxfaults: injected faults (C10 only)
+       "quick": dict(num=250, workers=4, maxnodes=30, minnodes=12), "thorough": dict(num=2500, workers=16, maxnodes=45, minnodes=16)}
 
 
 def sim_cfg(run, p):
+    p = dict(maxfaults=0, **p) if "maxfaults" not in p else p
     cfg = run.path("MC_Notation_sim.cfg")
     open(cfg, "w").write(f"""SPECIFICATION SpecSim
 CONSTANTS
@@ -14,6 +16,7 @@ CONSTANTS
   MaxNodes = {p['maxnodes']}
   MaxDepth = 4
   MinNodes = {p['minnodes']}
+  MaxFaults = {p['maxfaults']}
   MaxComps = 12
 INVARIANTS TypeOK WF MandatoryEdgesGoBack Emit
 CHECK_DEADLOCK FALSE
@@ -21,9 +24,9 @@ CHECK_DEADLOCK FALSE
     return cfg
 
 
-def generate(run, tier, tag="notation"):
+def generate(run, tier, tag="notation", **override):
     """module sets from TLC's simulator (seeded); returns the list of distinct node tables"""
-    p = SIM[tier]
+    p = dict(SIM[tier], **override)
     res = core.tlc("mc/MC_Notation.tla", sim_cfg(run, p), workers=p["workers"], simulate=f"num={p['num']}", depth=120,
                    tlcseed=core.seed(), timeout=1800, xmx="8g")
     run.add_tlc(res, f"Notation simulation num={p['num']} x {p['workers']} workers (states generated, simulation mode)")
